@@ -190,6 +190,10 @@ pub fn gen_nblocks(t: &mut Tape<'_>, par: usize, max: usize) -> usize {
         // rare: block counts around 256 (narrow loop counters, many parallel groups); not capped by `max`
         return [255, 256, 257, 300][b - 252];
     }
+    if p > max && max >= 20 && b < 12 {
+        // a backend wider than the usual message: whole parallel groups are reached only by going beyond `max`
+        return [p, p + 1, 2 * p + 1][b % 3];
+    }
     let n = if b < 96 {
         table[(b * table.len()) / 96]
     } else {
